@@ -44,6 +44,10 @@ class EmptyProblems(GlomError):
         return 'problems: %r' % (self.problems,)
 
 
+class MissingField(KeyError):
+    pass
+
+
 class Fn:
     def __init__(self, name):
         self.name = name
@@ -51,6 +55,12 @@ class Fn:
     def __call__(self, t):
         if self.name == 'falsy':
             raise EmptyProblems()
+        if self.name == 'fnf':
+            raise FileNotFoundError(2, 'No such file or directory', 'data.json')      # inherits OSError.__str__
+        if self.name == 'keysub':
+            raise MissingField('price')                                               # inherits KeyError.__str__
+        if self.name == 'paragraphs':
+            raise ValueError('bad input near column 5:\n\n  a = = 1\n      ^\n\nsecond paragraph')     # blank and caret-only lines belong to the message
         if self.name == 'boom':
             raise ValueError('boom from fn')
         if self.name == 'copy':
@@ -212,6 +222,12 @@ def ev(term, target):
             raise F('PathAccessError')
         if term[1] == 'falsy':
             raise F('EmptyProblems')
+        if term[1] == 'fnf':
+            raise F('FileNotFoundError', False)
+        if term[1] == 'keysub':
+            raise F('MissingField', False)
+        if term[1] == 'paragraphs':
+            raise F('ValueError', False)
         return target
     if k == 'check':
         if type(target) is str:
@@ -601,7 +617,7 @@ def kinds(term):
 
 
 OK_LEAVES = [['path', 'a'], ['fn', 'ok'], ['fn', 'copy'], ['T', 'n'], ['val', 'v'], ['Tbare']]
-FAIL_LEAVES = [['path', 'zz'], ['T', 'zz'], ['Tattr', 'zz'], ['fn', 'boom'], ['fn', 'syntax'], ['fn', 'nested'], ['fn', 'nestedlog'], ['fn', 'falsy'], ['check'], ['m', 5], ['match'], ['S', 'zz'], ['path', 'a.zz']]
+FAIL_LEAVES = [['path', 'zz'], ['T', 'zz'], ['Tattr', 'zz'], ['fn', 'boom'], ['fn', 'syntax'], ['fn', 'nested'], ['fn', 'nestedlog'], ['fn', 'falsy'], ['fn', 'fnf'], ['fn', 'keysub'], ['fn', 'paragraphs'], ['check'], ['m', 5], ['match'], ['S', 'zz'], ['path', 'a.zz']]
 
 
 def outcome_of(term):
@@ -652,7 +668,12 @@ def composites(kids):
         out.append(['coalesce_skip', [['path', 'a'], ['coalesce_default', [a, a]]]])
         out.append(['tuple', [['coalesce_default', [a]], ['check']]])
         out.append(['checksub', [a]])
-    for a, b in itertools.product(kids, repeat=2):
+    # leaves that differ from ['fn', 'boom'] only in the KIND of error text are paired with three partners, not with every other leaf
+    text_variants = [['fn', x] for x in ('syntax', 'nestedlog', 'falsy', 'fnf', 'keysub', 'paragraphs')]
+    partners = [['path', 'a'], ['path', 'zz'], ['fn', 'ok']]
+    pairs = [(a, b) for a, b in itertools.product(kids, repeat=2)
+             if (a not in text_variants and b not in text_variants) or (a in text_variants and b in partners) or (b in text_variants and a in partners)]
+    for a, b in pairs:
         out.append(['dict', [a, b]])
         out.append(['tuple', [a, b]])
         out.append(['pipe', [a, b]])
@@ -667,6 +688,11 @@ def composites(kids):
     return out
 
 
+def coarse(outcome):
+    """representatives are chosen per constructor and KIND of outcome; the exception classes of user callables are one kind"""
+    return 'user-exception' if outcome in ('ValueError', 'SyntaxError', 'FileNotFoundError', 'MissingField', 'EmptyProblems') else outcome
+
+
 def gen_cases(tier):
     leaves = OK_LEAVES + FAIL_LEAVES
     level1 = composites(leaves)
@@ -674,7 +700,7 @@ def gen_cases(tier):
     K = 1 if tier == 'quick' else 3
     buckets, reps = {}, []
     for t in level1:
-        key = (t[0], outcome_of(t), len(t[1]))
+        key = (t[0], coarse(outcome_of(t)), len(t[1]))
         if buckets.get(key, 0) < K:
             buckets[key] = buckets.get(key, 0) + 1
             reps.append(t)
